@@ -75,6 +75,28 @@ func variantsOf(r *rng, k int, v string) []string {
 	if kindIsV2(k) && len(toks) > 9 {
 		out = append(out, strings.Join(toks[:len(toks)-5], "/")) // without the environmental group
 	}
+	// two metrics changed at once (what a packed or hashed cache key with one
+	// field spilling into its neighbour confuses)
+	for n := 0; n < 4 && len(toks) > first+1; n++ {
+		t := append([]string{}, toks...)
+		changed := 0
+		for tries := 0; tries < 8 && changed < 2; tries++ {
+			i := first + r.intn(len(t)-first)
+			nv := strings.SplitN(t[i], ":", 2)
+			for _, d := range defs {
+				if d.name == nv[0] && len(nv) == 2 {
+					if alt := pick(r, d.vals); alt != nv[1] && t[i] == toks[i] {
+						t[i] = d.name + ":" + alt
+						changed++
+					}
+					break
+				}
+			}
+		}
+		if changed == 2 {
+			out = append(out, strings.Join(t, "/"))
+		}
+	}
 	return out
 }
 
